@@ -53,7 +53,7 @@ def rand_out_ns(rng, depth, top=False):
     if rng.random() < 0.4:
         attrs['dynamic'] = True
     if rng.random() < 0.3:
-        attrs['valid_type'] = rng.choice(['int', 'str', 'A'])
+        attrs['valid_type'] = rng.choice(['int', 'str', 'A', 'int', 'str', 'A', 'intdict'])  # ('intdict': a type that admits mappings too)
     if rng.random() < 0.15:
         attrs['validator'] = 'nsv_no_x'
     elif rng.random() < 0.15:
